@@ -3,7 +3,7 @@
 # from an isolated copy of /verif (git worktree /tmp/vseed at HEAD, own .build and .lake), so that the
 # main checkout can keep running checks. Results: /tmp/vseed-results/<Cxx>-m<k>.log
 set -u
-VS=/tmp/vseed
+VS=${VSEED:-/tmp/vseed}
 if [ ! -d $VS ]; then git -C /verif worktree add -q --detach $VS HEAD && (cd $VS && ./setup.sh >/dev/null 2>&1); else git -C $VS checkout -q -f --detach $(git -C /verif rev-parse HEAD) && (cd $VS && ./setup.sh >/dev/null 2>&1); fi
 mkdir -p /tmp/vseed-results
 SR=${SEEDPREFIX:-seed}
